@@ -32,7 +32,14 @@ Definition ATick : act := ACancelCall 9999.
 
 Inductive c18case :=
 | CDemux (acts : list act) (observed : list dobs)
-| CDemuxE2E (results : list (Z * Z)).   (* (expected, observed) outcome tokens of RPCs run through a real Demux *)
+| CDemuxE2E (results : list (Z * Z))    (* (expected, observed) outcome tokens of RPCs run through a real Demux *)
+(* free-running stress (real concurrency, no bubble): several goroutines call Cancel on the SAME key while the first
+   envelope of that key arrives, for many rounds - interleavings inside what the lock-step model treats as one critical
+   section. After the demultiplexer has settled and every key has been cancelled once more: [orphans] = connections that
+   were announced and are neither registered nor cancelled (a Read on them does not fail with the cancellation error: it
+   returns an envelope or waits), [extra] = announcements beyond one per envelope-carrying round. A panic (close of a closed
+   channel) ends the process: reported as a process event. *)
+| CDemuxStress (rounds orphans extra : Z).
 
 (* ---- decidable equality ---- *)
 Definition env_eqb (a b : env) : bool := (ekey a =? ekey b) && (eval a =? eval b).
@@ -164,6 +171,7 @@ Definition first_disagreement (c : c18case) : option nat :=
   match c with
   | CDemux acts observed => agree_from 0 [init] acts observed
   | CDemuxE2E _ => None
+  | CDemuxStress _ _ _ => None
   end.
 
 (* ================= the property predicates, on the observed history ================= *)
@@ -495,6 +503,8 @@ Definition check (c : c18case) : list nat :=
       ++ (if spec_alive_from false acts observed then [] else [8%nat])
   | CDemuxE2E results =>
       if forallb (fun p => fst p =? snd p) results then [] else [7%nat]
+  | CDemuxStress _ orphans extra =>
+      (if orphans =? 0 then [] else [5%nat]) ++ (if extra <=? 0 then [] else [3%nat])
   end.
 
 Fixpoint find_bad_from (i : nat) (cs : list c18case) : list (nat * list nat) :=
